@@ -8,3 +8,5 @@ def check(rep, tier):
     tracer_ftba.run(rep, tier, clauses=("FT4",))
     from contracts import discipline
     discipline.run_frame(rep, tier)
+    from contracts import programs_exact
+    programs_exact.run_history(rep)
